@@ -403,7 +403,7 @@ func gov15Case(w *vlog.W, a *wargs, id int, rng *rand.Rand, opts harness.Options
 	// (approved) during the pause, the logout is voted down (P0 comes back), then one approval and single
 	// rejections on P0 - the tally must go by the electors available now, not by the count at the pause
 	var script []func(events map[string]bool) bool
-	if id%5 == 3 {
+	if id%5 == 3 || id%10 == 8 {
 		X, Y := g.admins[len(g.admins)-1], g.admins[len(g.admins)-2]
 		S := harness.AdminKey(0)
 		pids := map[string]string{}
@@ -486,6 +486,35 @@ func gov15Case(w *vlog.W, a *wargs, id int, rng *rand.Rand, opts harness.Options
 		for i := 1; i < opts.NumAdmins; i++ {
 			k := harness.AdminKey(i)
 			script = append(script, func(e map[string]bool) bool { return vote("P0 freeze Y", k, "reject", e) })
+		}
+		if id%10 == 8 {
+			// the other script: a low-priority proposal (activate X) is paused by a high-priority one (logout X),
+			// withdrawn by its sponsor while paused - it is concluded - and then the high-priority one is voted down:
+			// the concluded proposal must stay what it is
+			withdraw := func(name string, e map[string]bool) bool {
+				if p, _ := g.proposal(pids[name]); p != nil {
+					e[p.ObjId] = true
+				}
+				res, err := world.Exec(world.BVM(S, harness.AddrGov, "WithdrawProposal", pb.String(pids[name]), pb.String("reason")))
+				if err == nil {
+					g.hist = append(g.hist, fmt.Sprintf("h%d script: sponsor withdraws %s (%s): %v", res.Height, pids[name], name, res.Receipts[0].Status))
+				}
+				return err == nil
+			}
+			script = []func(map[string]bool) bool{
+				func(e map[string]bool) bool { return submit("register X", reg(X), e) && voteAll("register X", "approve", e) },
+				func(e map[string]bool) bool { return submit("freeze X", role("FreezeRole", X), e) && voteAll("freeze X", "approve", e) },
+				func(e map[string]bool) bool { return submit("activate X", role("ActivateRole", X), e) },
+				func(e map[string]bool) bool { return submit("logout X", role("LogoutRole", X), e) },
+				func(e map[string]bool) bool { return withdraw("activate X", e) },
+				func(e map[string]bool) bool {
+					if p, _ := g.proposal(pids["activate X"]); p != nil && p.Status == "reject" {
+						g.shape["script:paused-proposal-withdrawn"] = true
+						w.Count("scripts_with_withdrawn_paused_proposal", 1)
+					}
+					return voteAll("logout X", "reject", e)
+				},
+			}
 		}
 	}
 	for s := 0; s < steps; s++ {
